@@ -138,7 +138,11 @@ func HInject(kind, seed, m int) {
 	fired := 0
 	consulted := 0
 	firedFn := ""
+	callDone := false
 	_ = ff.SetFailFunc(func(_ avfs.VFSBase, fn avfs.FnVFS, _ *failfs.FailParam) error {
+		if callDone {
+			return nil
+		}
 		consulted++
 		if fired == 0 && sym.Bool("fail") {
 			fired++
@@ -162,6 +166,7 @@ func HInject(kind, seed, m int) {
 	var err error
 	res := sym.Outcome(func() {
 		f, err = hx.Mutate(ff, name, p, "/w/new", s)
+		callDone = true
 		if f != nil && err == nil {
 			_ = f.Close()
 		}
